@@ -7,6 +7,7 @@ import (
 	"encoding/json"
 	"fmt"
 	"os"
+	"os/exec"
 	"path/filepath"
 	"regexp"
 	"sort"
@@ -30,8 +31,20 @@ type KnownFinding struct {
 }
 
 type KnownFile struct {
-	Findings []KnownFinding `json:"findings"`
-	Fixed    []string       `json:"fixed"`
+	Findings   []KnownFinding `json:"findings"`
+	Fixed      []string       `json:"fixed"`
+	FixedDemos []FixedDemo    `json:"fixed_demos"`
+}
+
+// FixedDemo: the stored demonstration of a repaired defect; it asserts the property, so it passes on the repaired tree.
+// The thorough tier runs it on the real code: if it fails, the defect is back (a replayed violation).
+type FixedDemo struct {
+	ID         string   `json:"id"`
+	Properties []string `json:"properties"`
+	Pkg        string   `json:"pkg"`
+	File       string   `json:"file"`
+	Run        string   `json:"run"`
+	What       string   `json:"what"`
 }
 
 func loadKnown() KnownFile {
@@ -190,6 +203,9 @@ func runCheck(prop, tier string, verbose bool) int {
 	lemmas := runLemmas(dir, prop, cfg, timeout)
 
 	res := summarize(s, prop, tier, reps, lemmas, known, missing, verbose)
+	if tier == "thorough" {
+		thoroughExtras(prop, known, res)
+	}
 	res.WallS = time.Since(t0).Seconds()
 	writeEvidence(evidencePath, prop, tier, cfg, reps, lemmas, res)
 	for _, l := range res.Lines {
@@ -225,6 +241,7 @@ type Summary struct {
 	SolverTime   float64
 	Failed       []*OblGroup
 	Samples      []map[string]interface{}
+	Extras       map[string]interface{}
 }
 
 func writeBroken(path, prop, tier, why string, wall float64) {
@@ -398,4 +415,61 @@ func writeUndecidedReplay(prop, name, fn, why string) string {
 	}, "", " ")
 	os.WriteFile(p, data, 0o644)
 	return p
+}
+
+// thoroughExtras: (1) the stored demonstrations of repaired defects of this property are run on the real code
+// (a failing one is a replayed violation: the defect is back); (2) the property's must-fail corpus is run against scratch
+// copies of the repository HEAD (self-test of the machinery; reported in the evidence, does not decide the property).
+func thoroughExtras(prop string, known KnownFile, res *Summary) {
+	res.Extras = map[string]interface{}{}
+	var demos []map[string]interface{}
+	for _, d := range known.FixedDemos {
+		mine := false
+		for _, p := range d.Properties {
+			mine = mine || p == prop
+		}
+		if !mine {
+			continue
+		}
+		cmd := exec.Command("sh", filepath.Join(verifDir, "replay", "run_overlay.sh"), d.Pkg, filepath.Join(verifDir, d.File), d.Run, repoDir)
+		cmd.Env = append(os.Environ(), "GOFLAGS=", "GOPROXY=off", "GOSUMDB=off", "GOTOOLCHAIN=local")
+		out, err := cmd.CombinedOutput()
+		failed := err != nil && strings.Contains(string(out), "--- FAIL")
+		built := !strings.Contains(string(out), "[build failed]") && !strings.Contains(string(out), "[setup failed]")
+		demos = append(demos, map[string]interface{}{"id": d.ID, "run": d.Run, "passes": err == nil, "built": built})
+		if failed {
+			dir := filepath.Join(outDir(), "replay")
+			os.MkdirAll(dir, 0o755)
+			p := filepath.Join(dir, sanitize(prop+".regression."+d.ID)+".json")
+			data, _ := json.MarshalIndent(map[string]interface{}{"property": prop, "obligation": prop + ".regression." + d.ID, "kind": "stored demonstration of a repaired defect",
+				"what": d.What, "test": d.Run, "package": d.Pkg, "confirmed_on_real_code": true, "output": trunc(string(out), 4000)}, "", " ")
+			os.WriteFile(p, data, 0o644)
+			res.Violations++
+			res.Lines = append(res.Lines, fmt.Sprintf("VIOLATION property=%s replay=%s", prop, p))
+		}
+	}
+	res.Extras["fixed_defect_demonstrations"] = demos
+	if os.Getenv("VERIF_NO_SELFTEST") == "" {
+		cmd := exec.Command("sh", filepath.Join(verifDir, "selftest", "run.sh"), "^"+prop+"_")
+		cmd.Env = append(os.Environ(), "SELFTEST_LENIENT=1")
+		out, _ := cmd.CombinedOutput()
+		killed, survived, skipped := 0, 0, 0
+		var surv []string
+		for _, l := range strings.Split(string(out), "\n") {
+			switch {
+			case strings.HasPrefix(l, "killed "):
+				killed++
+			case strings.HasPrefix(l, "SURVIVED "):
+				survived++
+				surv = append(surv, strings.Fields(l)[1])
+			case strings.HasPrefix(l, "skipped "):
+				skipped++
+			}
+		}
+		res.Extras["mutants"] = map[string]interface{}{"killed": killed, "survived": survived, "skipped_patch_does_not_apply": skipped, "survivors": surv,
+			"note": "must-fail corpus applied to scratch copies of the repository HEAD; a survivor means the check lost strength, it does not say anything about the tree under check"}
+		if survived > 0 {
+			res.Lines = append(res.Lines, fmt.Sprintf("SELFTEST-WARNING: %d must-fail mutant(s) of %s were not detected: %s", survived, prop, strings.Join(surv, " ")))
+		}
+	}
 }
